@@ -229,3 +229,11 @@ fn(T + ".__init__", inline=True, params={"app": "opaque", "config": "obj hyperco
        ("C16.init.no-protocol", "not has(self, 'protocol')", "C16"),
    ],
    props=("C16", "C07", "C08", "C14"))
+
+
+# an exception escaping a server unit breaks every property the unit is listed for (a write that
+# raises into the application: C03; a close that raises: C07, C16 ...), not only C04
+from pyvc.contracts import REG as _REG
+for _q, _fc in list(_REG.fns.items()):
+    if _q.startswith(A + ".") or _q.startswith(T + "."):
+        _fc.model_opts = dict(_fc.model_opts or {}, exception_props=tuple(_fc.props))
